@@ -214,6 +214,8 @@ mut("remove_head_move_unguarded", L, """                // Move the values at th
                 ptr::copy(ptr.add(start), ptr.add(start).add(1), index - start);
                 self.start = add_mod(start, 1, N);""", ["C20:HEADMOVE1"])
 mut("over_range_size_end", D, """        buf.size = 0;""", """        buf.size = end;""", ["C04:REINT1", "C03:OWNER1", "C10:DRN1"])
+mut("from_keeps_first", L, """            ptr::copy_nonoverlapping(arr_ptr.add(M - size), elems_ptr, size);""", """            ptr::copy_nonoverlapping(arr_ptr, elems_ptr, size);""", ["C12:FROMARR1", "C03:OWNER1"])
+mut("from_drop_off_by_one", L, """            ptr::drop_in_place(&mut arr[..M - size]);""", """            ptr::drop_in_place(&mut arr[..(M - size).saturating_sub(1)]);""", ["C12:FROMARR1", "C03:OWNER1"])
 mut("view_back_off_by_one", L, """            let (back, front) = self.items.split_at(start);
             (front, &back[..end])""", """            let (back, front) = self.items.split_at(start);
             (front, &back[..end + 1])""", ["C07:VIEW2", "C04:VIEW2"])
